@@ -45,7 +45,8 @@ REQUIRED = {'quick': {'obstacles.layouts': 2000, 'obstacles.outcomes': 10000, 'o
 N4 = ((-1, 0), (1, 0), (0, -1), (0, 1))
 OBST = ('MovingObstacle', 'Patrol')
 MAKERS = {'.': Floor, 'o': MovingObstacle, '#': Wall, 'E': Exit, 'k': lambda: Key(Color.RED),
-          'R': lambda: Telepod(Color.RED), 'B': lambda: Telepod(Color.BLUE), 'G': lambda: Telepod(Color.GREEN)}
+          'R': lambda: Telepod(Color.RED), 'B': lambda: Telepod(Color.BLUE), 'G': lambda: Telepod(Color.GREEN),
+          'N': lambda: Telepod(Color.NONE), 'Y': lambda: Telepod(Color.YELLOW), 'y': lambda: Key(Color.YELLOW)}
 
 
 SHARED = [False]
@@ -221,7 +222,7 @@ def teleport_case(ctx, layout, agent, action):
     h, w = len(layout), len(layout[0])
     here = layout[y0][x0]
     partners = {(y, x) for y in range(h) for x in range(w)
-                if layout[y][x] == here and (y, x) != (y0, x0)} if here in 'RBG' else set()
+                if layout[y][x] == here and (y, x) != (y0, x0)} if here in 'RBGNY' else set()
     payload = {'layout': [''.join(r) for r in layout], 'agent': [y0, x0, o0.name], 'action': action.name}
     label = f'layout {payload["layout"]} agent {payload["agent"]} {action.name}'
     base = build(layout, agent)
@@ -277,7 +278,7 @@ def teleport_case(ctx, layout, agent, action):
             ctx.violation('teleport', 'teleport.partner_never_chosen',
                           f'{label}: partners {sorted(partners - seen)} are never chosen over all {n} outcomes', 'teleport_case',
                           payload)
-    elif here in 'RBG':
+    elif here in 'RBGNY':
         ctx.hit('teleport.unpaired')
         ctx.nontrivial(('tp', tuple(payload['layout']), y0, x0))
     else:
@@ -325,7 +326,7 @@ def seeded(ctx, n):
             s = build(layout, agent)
             pre = enc.es(s)
             here = layout[ay][ax]
-            partners = {(y, x) for (y, x) in pods if layout[y][x] == here and (y, x) != (ay, ax)} if here in 'RBG' else set()
+            partners = {(y, x) for (y, x) in pods if layout[y][x] == here and (y, x) != (ay, ax)} if here in 'RBGNY' else set()
             payload = {'layout': [''.join(r) for r in layout], 'agent': [ay, ax, agent[2].name], 'action': action.name, 'seed': seed}
             ok, res = call_real(fn_t, s, action, rng=np.random.default_rng(seed))
             ctx.ev()
@@ -438,7 +439,10 @@ def run(ctx):
             if SHARED[0]:
                 ctx.hit('palette_layouts')
             rng = gen.rng_for('C11tp', ctx.seed, ctx.shard, k)
-            layout = rand_layout(rng, 4, 4, '.RBG#', [5, 2, 2, 2, 1], 5, o='R')
+            # telepods of every colour incl. the colourless one (first and last member of the palette), coloured keys and exits
+            # (colourless like the colourless telepod) among them
+            layout = (rand_layout(rng, 4, 4, '.RBG#', [5, 2, 2, 2, 1], 5, o='R') if k % 2 else
+                      rand_layout(rng, 4, 4, '.NYRBG#kyE', [5, 2, 2, 1, 1, 1, 1, 1, 1, 1], 6, o='N'))
             h, w = len(layout), len(layout[0])
             for action in Action:
                 teleport_case(ctx, layout, (rng.randrange(h), rng.randrange(w), rng.choice(gen.ORIENTATIONS)), action)
